@@ -285,7 +285,46 @@ Definition unbond_v (h : Z) (a sh : Z) (v : vstate) : res (vstate * Z) :=
 (* ---------- x/staking/precompile/transfer_shares.go: handlerTransferShares ---------- *)
 (* `recv` = HasReceivingRedelegation(from, validator).  Statement order is the code's:
    validator and fromDel are read first; from's rewards are withdrawn; toDel is read (and to's rewards
-   withdrawn, or the period ended) BEFORE fromDel is written back; then from, then to. *)
+   withdrawn, or the period ended) BEFORE fromDel is written back; then from is written, then to.
+   The three blocks of the function body are named so that the proofs can speak about them. *)
+
+(* "get to delegation": read toDel; withdraw to's rewards, or end the period if there is none *)
+Definition ts_read_to (h to : Z) (v1 : vstate) : res (vstate * Z * bool) :=
+  match kget to (v_dels v1) with
+  | None => v2 <- incr_period v1 ;; Ok (v2, 0, false)
+  | Some toDel => v2 <- withdraw_delegation_rewards h to v1 ;; Ok (v2, toDel, true)
+  end.
+
+(* "update from delegate, delete it if shares zero" (tok, vsh: the validator read at the top) *)
+Definition ts_write_from (tok vsh from fromDel shares : Z) (v2 : vstate) : res vstate :=
+  (* GetDelegatorStartingInfo: a missing record unmarshals to the zero value *)
+  let fromSI := match kget from (v_start v2) with Some s => s | None => sinfo_zero end in
+  let fromDel' := fromDel - shares in
+  if fromDel' =? 0 then
+    let v3a := set_dels (kdel from (v_dels v2)) v2 in
+    v3b <- dec_ref (si_prev fromSI) v3a ;;
+    Ok (set_start (kdel from (v_start v3b)) v3b)
+  else
+    let v3a := set_dels (kset from fromDel' (v_dels v2)) v2 in
+    stake <- tokens_from_shares_trunc tok vsh fromDel' ;;
+    Ok (set_start (kset from {| si_prev := si_prev fromSI; si_stake := stake;
+                                si_height := si_height fromSI |} (v_start v3a)) v3a).
+
+(* "update to delegate, set starting info if to not delegate before"; toDel is the value read earlier *)
+Definition ts_write_to (h tok vsh to toDel shares : Z) (toFound : bool) (v3 : vstate) : res vstate :=
+  let toDel' := toDel + shares in
+  let v4 := set_dels (kset to toDel' (v_dels v3)) v3 in
+  if negb toFound then
+    let prev := v_period v4 - 1 in
+    v4a <- inc_ref_precompile prev v4 ;;
+    stake <- tokens_from_shares_trunc tok vsh shares ;;
+    Ok (set_start (kset to {| si_prev := prev; si_stake := stake; si_height := h |} (v_start v4a)) v4a)
+  else
+    let toSI := match kget to (v_start v4) with Some s => s | None => sinfo_zero end in
+    stake <- tokens_from_shares_trunc tok vsh toDel' ;;
+    Ok (set_start (kset to {| si_prev := si_prev toSI; si_stake := stake;
+                              si_height := si_height toSI |} (v_start v4)) v4).
+
 Definition transfer_shares (h : Z) (recv : bool) (from to x : Z) (v : vstate) : res vstate :=
   let tok := v_tokens v in
   let vsh := v_shares v in
@@ -298,36 +337,11 @@ Definition transfer_shares (h : Z) (recv : bool) (from to x : Z) (v : vstate) : 
         if fromDel <? shares then Err
         else
           v1 <- withdraw_delegation_rewards h from v ;;
-          r <- match kget to (v_dels v1) with
-               | None => v2 <- incr_period v1 ;; Ok (v2, 0, false)
-               | Some toDel => v2 <- withdraw_delegation_rewards h to v1 ;; Ok (v2, toDel, true)
-               end ;;
+          r <- ts_read_to h to v1 ;;
           let '(v2, toDel, toFound) := r in
-          (* GetDelegatorStartingInfo: a missing record unmarshals to the zero value *)
-          let fromSI := match kget from (v_start v2) with Some s => s | None => sinfo_zero end in
-          let fromDel' := fromDel - shares in
-          v3 <- (if fromDel' =? 0 then
-                   let v3a := set_dels (kdel from (v_dels v2)) v2 in
-                   v3b <- dec_ref (si_prev fromSI) v3a ;;
-                   Ok (set_start (kdel from (v_start v3b)) v3b)
-                 else
-                   let v3a := set_dels (kset from fromDel' (v_dels v2)) v2 in
-                   stake <- tokens_from_shares_trunc tok vsh fromDel' ;;
-                   Ok (set_start (kset from {| si_prev := si_prev fromSI; si_stake := stake;
-                                               si_height := si_height fromSI |} (v_start v3a)) v3a)) ;;
-          let toDel' := toDel + shares in
-          let v4 := set_dels (kset to toDel' (v_dels v3)) v3 in
-          v5 <- (if negb toFound then
-                   let prev := v_period v4 - 1 in
-                   v4a <- inc_ref_precompile prev v4 ;;
-                   stake <- tokens_from_shares_trunc tok vsh shares ;;
-                   Ok (set_start (kset to {| si_prev := prev; si_stake := stake; si_height := h |}
-                                       (v_start v4a)) v4a)
-                 else
-                   let toSI := match kget to (v_start v4) with Some s => s | None => sinfo_zero end in
-                   stake <- tokens_from_shares_trunc tok vsh toDel' ;;
-                   Ok (set_start (kset to {| si_prev := si_prev toSI; si_stake := stake;
-                                             si_height := si_height toSI |} (v_start v4)) v4)) ;;
+          v3 <- ts_write_from tok vsh from fromDel shares v2 ;;
+          v5 <- ts_write_to h tok vsh to toDel shares toFound v3 ;;
+          (* token := validator.TokensFromShares(shares).TruncateInt() *)
           _ <- tokens_from_shares tok vsh shares ;;
           Ok v5
   end.
@@ -458,3 +472,19 @@ Definition step (s : state) (o : op) : state * bool :=
   end.
 
 Definition run (s : state) (ops : list op) : state := fold_left (fun st o => fst (step st o)) ops s.
+
+(* ---------- genesis ---------- *)
+(* What InitGenesis leaves for a genesis validator whose operator (account 100+i) self-delegated
+   `power_reduction` tokens: staking sets tokens/shares/delegation directly; the distribution hooks
+   (AfterValidatorCreated, BeforeDelegationCreated, AfterDelegationModified) run at height 0. *)
+Definition op_base : Z := 100.
+Definition gen_v (i : Z) : vstate :=
+  {| v_tokens := power_reduction; v_shares := dec_of_int power_reduction;
+     v_dels := [(op_base + i, dec_of_int power_reduction)];
+     v_period := 2; v_hist := [(1, 2)];
+     v_start := [(op_base + i, {| si_prev := 1; si_stake := dec_of_int power_reduction; si_height := 0 |})];
+     v_slashes := [] |}.
+Fixpoint gen_vals (n : nat) (i : Z) : list vstate :=
+  match n with O => [] | S m => gen_v i :: gen_vals m (i + 1) end.
+Definition gen_state (n : nat) : state :=
+  {| s_vals := gen_vals n 0; s_allow := []; s_reds := []; s_ubds := []; s_height := 1 |}.
